@@ -163,6 +163,25 @@ class Degenerate:
         self.count += len(kids)
         return kids
 
+    def state_run(self, depth):
+        """a chemical formula followed by a state symbol written as separate tokens -- ( a q ), ( g ), ( s ) -- complete, cut short at
+        every point, or with something else in the middle (the clean-up looks ahead over the next tokens of the row)"""
+        r = self.rng
+        el = lambda: mi(r.choice(["Na", "Cl", "H", "O", "C", "Fe", "K"]), **({"mathvariant": "normal"} if r.random() < 0.5 else {}))
+        kids = []
+        for _ in range(r.randint(0, 2)):
+            kids.append(el() if r.random() < 0.6 else N("msub", [el(), mn(str(r.randint(2, 4)))]))
+        state = r.choice([["(", "a", "q", ")"], ["(", "g", ")"], ["(", "s", ")"], ["(", "l", ")"], ["(", "a", "q", ")"]])
+        cut = r.choice([len(state), len(state), len(state) - 1, len(state) - 2, 1])
+        for t in state[:max(1, cut)]:
+            kids.append(mo(t) if t in "()" else mi(t))
+        if r.random() < 0.4:
+            kids += [mo(r.choice(["+", "→", "⇌"])), el()]
+            if r.random() < 0.5:
+                kids += [mo("("), mi("a"), mi("q")] + ([mo(")")] if r.random() < 0.5 else [])
+        self.count += len(kids)
+        return kids
+
     def phantom_base_script(self, depth):
         """a script whose base is built the way TeX packages build an 'empty' base (mhchem: nested rows around a zero-width mpadded that
         starts with a phantom letter) -- here with 0-2 visible tokens after the phantom, which are content and must stay"""
@@ -232,6 +251,8 @@ class Degenerate:
             x = r.random()
             if x < 0.12:
                 return self.phantom_base_script(d)
+            if x < 0.22:
+                return mrow(*self.state_run(d))
             return mrow(*(self.special_run(d) if x < 0.6 else self.fenced_then_script(d) if x < 0.8 else self.spelled_run(d)))
         if k < 0.25:
             n = r.choice([0, 1, 1, 2, 3, 3, 4, 5])
